@@ -6,5 +6,6 @@ CONSTANTS
   Fams = {"redir"}
   LB = 1
   LM = 1
+  Wide = {}
   Stepwise = TRUE
 PROPERTY P_OnlyChangers
